@@ -54,6 +54,7 @@ class JWTBearerTokenValidator(BearerTokenValidator):
             )
             claims.validate()
             return claims
-        except JoseError as error:
+        except (JoseError, ValueError) as error:
+            # ValueError: the key does not fit the algorithm named in the token header
             logger.debug("Authenticate token failed. %r", error)
             return None
